@@ -4,6 +4,7 @@ import (
 	"context"
 	"fmt"
 	"github.com/avos-io/goat/gen/goatorepo"
+	"io"
 	"strings"
 	"time"
 
@@ -33,6 +34,15 @@ func init() { register("C10", c10) }
 type c10End struct {
 	kind string // "read" | "write" | "stop"
 	at   int
+	errv string // write ends: the error value the refused Write reports ("" = the harness's own)
+}
+
+// what real transports report for a refused Write: a context error of their own (not the connection's), wrapped or bare
+var c10WriteErrs = map[string]error{
+	"wrapped-canceled": fmt.Errorf("write tcp: use of closed connection: %w", context.Canceled),
+	"canceled":         context.Canceled,
+	"wrapped-deadline": fmt.Errorf("write: i/o timeout: %w", context.DeadlineExceeded),
+	"eof":              io.EOF,
 }
 
 func c10(tier string) []*explore.Scenario {
@@ -63,20 +73,27 @@ func c10(tier string) []*explore.Scenario {
 			// above the pool's size the read loop is parked handing the 9th request to a
 			// worker: it does not read (so no read can fail) and nothing is written; the
 			// one end that can happen there is Stop, once the 9 requests are in
-			out = append(out, c10One(set, c10End{"stop", 9}, bound))
+			out = append(out, c10One(set, c10End{"stop", 9, ""}, bound))
 			continue
 		}
 		parks := strings.ContainsAny(set, "HFh") // the read after the last request is never issued
 		for k := 0; k <= nreq; k++ {
 			if !(parks && k == nreq) {
-				out = append(out, c10One(set, c10End{"read", k}, bound))
+				out = append(out, c10One(set, c10End{"read", k, ""}, bound))
 			}
-			out = append(out, c10One(set, c10End{"stop", k}, bound))
+			out = append(out, c10One(set, c10End{"stop", k, ""}, bound))
 		}
 		nresp := strings.Count(set, "o") + 2*strings.Count(set, "S") + 2*strings.Count(set, "e") + strings.Count(set, "B") + strings.Count(set, "M") + 2*strings.Count(set, "h")
 		for k := 0; k < nresp; k++ {
-			out = append(out, c10One(set, c10End{"write", k}, bound))
+			out = append(out, c10One(set, c10End{"write", k, ""}, bound))
 		}
+	}
+	// the refused write reports a context error of the transport's own (the connection's context is alive), io.EOF, ...
+	for _, ev := range []string{"wrapped-canceled", "canceled", "wrapped-deadline", "eof"} {
+		for _, set := range []string{"o", "oX", "UoR", "XSo"} {
+			out = append(out, c10One(set, c10End{"write", 0, ev}, 1))
+		}
+		out = append(out, c10One("oo", c10End{"write", 1, ev}, 1), c10One("S", c10End{"write", 0, ev}, 1))
 	}
 	for _, end := range []string{"stop", "read-fails-on-first", "stop-then-serve"} {
 		out = append(out, c10TwoConns(end, 1))
@@ -95,7 +112,7 @@ func c10(tier string) []*explore.Scenario {
 		out = append(out, c12ResetsUnread("C10", end, 2))
 	}
 	// finer granularity (a scheduling point after every Unlock as well) on the small core scenarios
-	out = append(out, fineGrained(c10One("UR", c10End{"stop", 1}, 1), c10One("oS", c10End{"read", 1}, 1))...)
+	out = append(out, fineGrained(c10One("UR", c10End{"stop", 1, ""}, 1), c10One("oS", c10End{"read", 1, ""}, 1))...)
 	return out
 }
 
@@ -226,7 +243,7 @@ func c10Reqs(c rune) int {
 func c10One(set string, end c10End, bound int) *explore.Scenario {
 	fam := "C10/" + end.kind
 	return &explore.Scenario{
-		Name:   fmt.Sprintf("C10/set=%q/%s@%d", set, end.kind, end.at),
+		Name:   fmt.Sprintf("C10/set=%q/%s@%d%s", set, end.kind, end.at, map[bool]string{true: "/err=" + end.errv}[end.errv != ""]),
 		Family: fam, Prop: "C10", Bound: bound,
 		Run: func() {
 			w := env.NewWorld()
@@ -237,6 +254,7 @@ func c10One(set string, end c10End, bound int) *explore.Scenario {
 				d.Pipe.B.ReadFailAfter = end.at
 			case "write":
 				d.Pipe.B.WriteFailAt = end.at
+				d.Pipe.B.WriteFailErr = c10WriteErrs[end.errv]
 			}
 			// build the request script
 			var script []*env.Rpc
